@@ -1,3 +1,5 @@
+import re
+
 H = 'include/unifex/v2/async_scope.hpp'
 NS = r'struct _nest_sender<Sender>::type final \{'
 SR = r'struct scope_reference final \{'
@@ -18,6 +20,70 @@ ctx = dict(cls='nest_sender', members=['scope_', 'sender_'],
                 (r'rhs\.sender_\.destruct\(\)', 'EV_sender_destruct(rhs)'),
                 (r'(?<![\w.>])sender_\.destruct\(\)', 'EV_sender_destruct(this)'),
                 (r'return \*this;', 'return;')])
+
+H_DBG = 'include/unifex/v2/debug_async_scope.hpp'
+NOP = r'struct _nest_op<Sender, Receiver>::type final \{'
+DBG = r'struct debug_async_scope final \{'
+
+
+# ---- general rules missing from the global table (written as spec-level `pre` callables / regexes):
+# (1) scope_guard g = [..]() noexcept { B };  ->  armed flag + VF_GUARD_g() (run once if armed) inserted before every `return`
+#     of the DECLARING BLOCK and at its closing brace (the guard's destructor made explicit, as rewrite_raii does for locals);
+# (2) `return T{args};` of a prvalue constructed in the caller's return slot  ->  `{ T_ctor(ret, args); return; }`;
+# (3) `auto x = E.scope_;` / `auto x = std::move(E).scope_;`  ->  declaration + explicit copy / move constructor call (the
+#     destructor then comes from the generic `raii` rule).
+def _block_end(t):
+    d = 0
+    for i, ch in enumerate(t):
+        if ch == '{':
+            d += 1
+        elif ch == '}':
+            if d == 0:
+                return i
+            d -= 1
+    raise ValueError('scope_guard outside any block')
+
+
+def _guard_block(m):
+    name = m.group(1)
+    body = re.sub(r'\s+', ' ', m.group(2)).strip()
+    rest = m.group(3)
+    e = _block_end(rest)
+    run = 'VF_GUARD_%s();' % name
+    blk = re.sub(r'\breturn\b', run + ' return', rest[:e])
+    return ('_Bool %s_armed = 1;\n#define VF_GUARD_%s() do { if (%s_armed) { %s_armed = 0; %s } } while (0)\n' % (name, name, name, name, body)
+            + blk + ' ' + run + ' ' + rest[e:])
+
+
+SENDER_TOKENS = [
+    (r'std::move\((\w+)\)\.sender_\.get\(\)', r'\1'),          # the wrapped sender is named by the nest sender that stores it
+    (r'(?<![\w>])(\w+)\.sender_\.get\(\)', r'\1'),
+    (r'(?<![\w>])(\w+)\.sender_\.destruct\(\)', r'EV_sender_destruct(\1)'),
+]
+connect_pre = [
+    (r'auto (\w+) = std::move\((\w+)\)\.scope_;', r'scope_reference \1; sr_move(&\1, &\2->scope_);'),
+    (r'auto (\w+) = (\w+)\.scope_;', r'scope_reference \1; sr_copy(&\1, &\2->scope_);'),
+    (r'if \((\w+)\) \{', r'if (SR_BOOL(&\1)) {'),
+    # the operation is constructed in the caller's return slot (guaranteed elision); an exception of the constructor leaves the
+    # function through the same exits as the return (the same locals are destroyed on both edges)
+    (r'(?s)return nest_op<(?:const Sender&|Sender), remove_cvref_t<Receiver>>\{\s*([^;{}]*?),\s*static_cast<Receiver&&>\((\w+)\),\s*std::move\((\w+)\)\};',
+     r'{ nest_op_ctor(ret, \1, \2, &\3); return; }'),
+    (r'(?s)return nest_op<(?:const Sender&|Sender), remove_cvref_t<Receiver>>\{\s*static_cast<Receiver&&>\((\w+)\)\};',
+     r'{ nest_op_ctor_empty(ret, \1); return; }'),
+] + SENDER_TOKENS + [
+    (r'(?s)scope_guard (\w+) = \[&\w+\]\(\) noexcept \{\s*([^{};]*;)\s*\};(.*)$', _guard_block),
+]
+connect_ctx = dict(pre=connect_pre, raii={'scope_reference': ('SR_CTOR', 'SR_DTOR')})
+nop_ctx = dict(cls='nest_op', members=['receiver_', 'op_'],
+               pre=[(r'(?s)activate_union_member_with\(op_, \[&\]\(\) \{\s*return unifex::connect\(\s*static_cast<Sender2&&>\((\w+)\), nest_receiver<Sender, Receiver>\{(\w+)\}\);\s*\}\);',
+                     r'if (EV_connect_inner(\2, \1)) return;'),
+                    (r'static_cast<Receiver2&&>\((\w+)\)', r'\1'),
+                    (r'std::move\((\w+)\)', r'SR_RVALUE(\1)')])
+sr_ctx = dict(cls='scope_reference', members=['scope_'], pre=[(r'(?<![\w>.])scope_or_nullptr\(', 'scope_reference_scope_or_nullptr(')])
+dbg_ctx = dict(cls='debug_scope', members=['ops_'],
+               obj_methods={'join': 'EV_v2_join', 'joined': 'EV_v2_joined', 'join_started': 'EV_v2_join_started', 'use_count': 'EV_v2_use_count'},
+               pre=[(r'(?s)scope_\.nest\(\s*debug_scope_sender_t<Sender>\{static_cast<Sender&&>\((\w+)\), &ops_\}\)', r'EV_v2_nest(&scope_, EV_debug_wrap(\1, &ops_))'),
+                    (r'(?s)scope_\.nest\(\s*static_cast<Sender&&>\((\w+)\)\)', r'EV_v2_nest(&scope_, \1)')])
 SPEC = dict(
     properties=['C08', 'C09', 'C02'],
     ctx=ctx,
@@ -33,6 +99,29 @@ SPEC = dict(
         'sr_swap': dict(file=H, sig=r'scope_reference& operator=\(scope_reference rhs\) noexcept', within=SR,
                         ctx=dict(cls='scope_reference', members=['scope_'], pre=[(r'rhs\.scope_', 'rhs->scope_'), (r'return \*this;', 'return;')])),
         'sr_move_init': dict(file=H, kind='expr', sig=r'scope_reference\(scope_reference&& other\) noexcept\s*: scope_\((.*?)\) \{\}', within=SR),
+        # ---- scope_reference special members (count conservation)
+        'sr_default_init': dict(file=H, kind='expr', sig=r'async_scope\* scope_\s*(=?[^;]*);', within=SR),
+        'sr_explicit_init': dict(file=H, kind='expr', sig=r'explicit scope_reference\(async_scope\* scope\) noexcept\s*: scope_\((.*?)\) \{\}', within=SR, ctx=sr_ctx),
+        'sr_copy_deleg': dict(file=H, kind='expr', sig=r'scope_reference\(const scope_reference& other\) noexcept\s*: scope_reference\((.*?)\) \{\}', within=SR),
+        'sr_scope_or_nullptr': dict(file=H, sig=r'scope_reference::scope_or_nullptr\(async_scope\* scope\) noexcept', ctx=sr_ctx),
+        'sr_dtor': dict(file=H, sig=r'inline scope_reference::~scope_reference\(\)', ctx=sr_ctx),
+        # ---- the nest operation's constructors
+        'nop_ctor': dict(file=H, sig=r'explicit type\(Sender2&& s, Receiver2&& r, scope_reference&& scope\) noexcept\(', within=NOP, ctx=nop_ctx),
+        'nop_ctor_scope_init': dict(file=H, kind='expr', sig=r'is_nothrow_connectable_v<Sender2, nest_receiver<Sender, Receiver>>\)\s*: scope_\(([^;{}]*?)\)\s*, receiver_\(', within=NOP, ctx=nop_ctx),
+        'nop_ctor_rcv_init': dict(file=H, kind='expr', sig=r'is_nothrow_connectable_v<Sender2, nest_receiver<Sender, Receiver>>\)\s*: scope_\([^;{}]*?\)\s*, receiver_\(([^;{}]*?)\) \{', within=NOP, ctx=nop_ctx),
+        'nop_ctor_rv': dict(file=H, sig=r'explicit type\(Receiver&& r\) noexcept\(\s*std::is_nothrow_move_constructible_v<Receiver>\)', within=NOP, ctx=nop_ctx),
+        'nop_ctor_rv_init': dict(file=H, kind='expr', sig=r'std::is_nothrow_move_constructible_v<Receiver>\)\s*: receiver_\(std::move\((\w+)\)\) \{\}', within=NOP),
+        'nop_ctor_lv': dict(file=H, sig=r'explicit type\(const Receiver& r\) noexcept\(\s*std::is_nothrow_copy_constructible_v<Receiver>\)', within=NOP, ctx=nop_ctx),
+        'nop_ctor_lv_init': dict(file=H, kind='expr', sig=r'std::is_nothrow_copy_constructible_v<Receiver>\)\s*: receiver_\((\w+)\) \{\}', within=NOP),
+        # ---- connect on a nest sender
+        'connect_move': dict(file=H, sig=r'friend auto tag_invoke\(tag_t<connect>, type&& s, Receiver&& r\) noexcept\(\s*nothrow_connect<type, Receiver>\)\s*-> nest_op<Sender, remove_cvref_t<Receiver>>', within=NS, ctx=connect_ctx),
+        'connect_copy': dict(file=H, sig=r'(?s)friend auto tag_invoke\(\s*tag_t<connect>,\s*const type& s,\s*Receiver&& r\) noexcept\(nothrow_connect<const type&, Receiver>\)\s*-> nest_op<const Sender&, remove_cvref_t<Receiver>>', within=NS, ctx=connect_ctx),
+        # ---- v2 debug_async_scope: forwards to its v2 async_scope
+        'dbg_nest': dict(file=H_DBG, sig=r'\[\[nodiscard\]\] auto nest\(Sender&& sender\) noexcept\(\s*sender_nothrow_constructible<Sender>&&\s*nest_nothrow_invocable<Sender>\)', within=DBG, ctx=dbg_ctx),
+        'dbg_join': dict(file=H_DBG, sig=r'\[\[nodiscard\]\] auto join\(\) noexcept', within=DBG, ctx=dbg_ctx),
+        'dbg_joined': dict(file=H_DBG, sig=r'bool joined\(\) const noexcept', within=DBG, ctx=dbg_ctx),
+        'dbg_join_started': dict(file=H_DBG, sig=r'bool join_started\(\) const noexcept', within=DBG, ctx=dbg_ctx),
+        'dbg_use_count': dict(file=H_DBG, sig=r'std::size_t use_count\(\) const noexcept', within=DBG, ctx=dbg_ctx),
     },
     units=[
         dict(name='ctor', harness='h_ctor', enforce='nest_sender_ctor'),
